@@ -51,7 +51,7 @@ def rand_query(rng):
 
 
 def gen_cases(rng, tier):
-    n = 260 if tier == 'quick' else 2000
+    n = 420 if tier == 'quick' else 3000
     cases = []
     for k in range(n):
         cfg = L.rand_config(rng, tier)
